@@ -346,7 +346,8 @@ pub fn check_loop(case: &LoopCase, out: &LoopOutcome) -> Vec<Finding> {
                         }
                     }
                     // j's end precedes i's first drop
-                    if let Some((gi, e)) = si.post.iter().find(|(_, e)| matches!(e.kind, Kind::DropOut | Kind::DropIn)) {
+                    // (a destructor that runs inside i's own timed section counts as well: it overlaps j's)
+                    if let Some((gi, e)) = si.timed.iter().chain(si.post.iter()).find(|(_, e)| matches!(e.kind, Kind::DropOut | Kind::DropIn)) {
                         if *gi < sj.end.0 {
                             finding(&mut f, "C08", "drop-before-end", format!("{}: round {r}: thread {} started dropping ({:?}) before thread {} took its end timestamp", case.describe(), i.thread, e.kind, j.thread));
                         }
